@@ -72,6 +72,7 @@ type fakePool struct {
 	authOK   bool
 	reject   string // how it answers submits: "" accept, "err" error array, "false" result:false
 	hold     bool   // keep submits unanswered until told
+	manual   bool   // handshake requests are only recorded: the test answers them itself (C15)
 	jobN     int
 	dialFail bool
 	rec      *sessRec
@@ -151,13 +152,22 @@ func (pc *fakePoolConn) run() {
 				ext = fmt.Sprintf("mask=%v minbits=%v contract=%v", m["version-rolling.mask"], m["version-rolling.min-bit-count"], m["lmr.contract-address"])
 			}
 			p.rec.add(pc.stream(), "configure id=%s %s", id, ext)
+			if p.manual {
+				continue
+			}
 			pc.send(`{"id":%s,"result":{"version-rolling":true,"version-rolling.mask":"%s"},"error":null}`, id, p.mask)
 		case "mining.subscribe":
 			p.rec.add(pc.stream(), "subscribe id=%s", id)
+			if p.manual {
+				continue
+			}
 			pc.send(`{"id":%s,"result":[[["mining.set_difficulty","1"],["mining.notify","1"]],"%s",%d],"error":null}`, id, p.en1, p.en2size)
 		case "mining.authorize":
 			pc.user = str(0)
 			p.rec.add(pc.stream(), "authorize id=%s user=%s pwd=%s", id, str(0), str(1))
+			if p.manual {
+				continue
+			}
 			if !p.authOK {
 				pc.send(`{"id":%s,"result":false,"error":null}`, id)
 				continue
